@@ -29,11 +29,16 @@ def make_block_case(rng, i):
             dims.append(d)
             if d % 2 == 0 and rng.random() < 0.5:
                 d //= 2
+    # end-point mode: several levels must copy the last node (the controller refuses anything else); ONE level may use the quadrature
+    quad, dcu = 'RADAU-RIGHT', False
+    if nl == 1 and i % 3 == 1:
+        quad = rng.choice(['GAUSS', 'RADAU-LEFT', 'RADAU-RIGHT', 'LOBATTO'])
+        dcu = quad in ('RADAU-RIGHT', 'LOBATTO') or rng.random() < 0.5
     levels_cfg = []
     for l in range(nl):
         lamv = tuple(rfrac(rng, -3, 1) for _ in range(dims[l]))
         cv = tuple(rfrac(rng, -2, 2) for _ in range(dims[l]))
-        lvc = dict(num_nodes=nn[l], quad_type='RADAU-RIGHT', dim=dims[l], QI=rng.choice(['IE', 'LU', 'MIN-SR-S', 'IEpar']))
+        lvc = dict(num_nodes=nn[l], quad_type=quad, dim=dims[l], QI=rng.choice(['IE', 'LU', 'MIN-SR-S', 'IEpar']))
         if imex:
             lvc.update(lamI=lamv, cI=cv, lamE=tuple(rfrac(rng, -2, 1) for _ in range(dims[l])), muE=tuple(F(0) for _ in range(dims[l])),
                        cE=tuple(rfrac(rng, -2, 2) for _ in range(dims[l])), QE='EE')
@@ -44,7 +49,7 @@ def make_block_case(rng, i):
     u0v = [rfrac(rng, -3, 3) for _ in range(dims[0])]
     finter = (nl > 1 and i % 5 == 1)
     cfg = dict(kind='IMEX' if imex else 'GI', levels=levels_cfg, num_procs=P, maxiter=1, restol=F(-1), dt=dt, predict_type=None,
-               nsweeps=nsw if nl > 1 else nsw[0], finter=finter, small_tables=24, mssdc_jac=jacobi)
+               nsweeps=nsw if nl > 1 else nsw[0], finter=finter, small_tables=24, mssdc_jac=jacobi, do_coll_update=dcu)
     try:
         C = er.build_controller(cfg)
         if nl > 1:
@@ -61,7 +66,8 @@ def make_block_case(rng, i):
                            Q=[[L.sweep.coll.Qmat[a, b] for b in range(M + 1)] for a in range(M + 1)],
                            QI=[[L.sweep.QI[a, b] for b in range(M + 1)] for a in range(M + 1)],
                            QE=([[L.sweep.QE[a, b] for b in range(M + 1)] for a in range(M + 1)] if imex else [[0] * (M + 1) for _ in range(M + 1)]),
-                           nodes=[F(0)] + [F(x) for x in L.sweep.coll.nodes]))
+                           nodes=[F(0)] + [F(x) for x in L.sweep.coll.nodes],
+                           end=(bool(L.sweep.coll.right_is_node), bool(L.sweep.params.do_coll_update), [F(0)] + [F(x) for x in L.sweep.coll.weights])))
         R, Pm, RS, PS = [], [], [], []
         for k in range(nl - 1):
             bt = S._Step__transfer_dict[(S.levels[k], S.levels[k + 1])].__self__
@@ -98,13 +104,14 @@ def make_block_case(rng, i):
         return ('{| mx_df := %d%%nat; mx_dc := %d%%nat; mx_Rs := %s; mx_Ps := %s; mx_Rcoll := %s; mx_Pcoll := %s; mx_finter := %s |}'
                 % (dims[k], dims[k + 1], qcm(RS[k]), qcm(PS[k]), qcm([[0] * (Mf + 1)] + [[0] + list(r) for r in R[k]]),
                    qcm([[0] * (Mc + 1)] + [[0] + list(r) for r in Pm[k]]), coq_bool(finter)))
-    lit = ('({| b_t0 := %s; b_dt := %s; b_imex := %s; b_jacobi := %s; b_levels := %s; b_xfers := %s; b_u := %s; b_f := %s |}, %s)'
+    lit = ('({| b_t0 := %s; b_dt := %s; b_imex := %s; b_jacobi := %s; b_levels := %s; b_xfers := %s; b_ends := %s; b_u := %s; b_f := %s |}, %s)'
            % (qc(F(0)), qc(dt), coq_bool(imex), coq_bool(jacobi), coq_list([mlevel(l) for l in range(nl)]),
               coq_list([mxfer(k) for k in range(nl - 1)]),
+              coq_list(['(%s, %s, %s)' % (coq_bool(d['end'][0]), coq_bool(d['end'][1]), qcl(d['end'][2])) for d in lv]),
               coq_list([qcm(pred[p]['u']) for p in range(P)]),
               coq_list([coq_list([qcm(parts(fv)) for fv in pred[p]['f']]) for p in range(P)]),
               qcl(expected)))
-    meta = dict(steps=P, levels=nl, nodes=nn, nsweeps=nsw, dims=dims, imex=imex, jacobi=jacobi, finter=finter, dt=str(dt),
+    meta = dict(steps=P, levels=nl, nodes=nn, nsweeps=nsw, dims=dims, imex=imex, jacobi=jacobi, finter=finter, dt=str(dt), quad_type=quad, do_coll_update=dcu,
                 QI=[x['QI'] for x in levels_cfg], u0=[str(v) for v in u0v])
     return meta, lit
 
